@@ -84,7 +84,14 @@ ZeroPairClauses(r) ==
     <<"CaseOrderIndependent", r.bits0 = r.bitsS>>
   >>
 
+(* ---- dominant: one dominating weight; ab = deviation of (alpha, beta) from the EXACT rational solution
+   of the weighted normal equations on the same float coordinates ---- *)
+DominantClauses(r) ==
+  IF r.exc # "" THEN << <<"UnexpectedException", FALSE>> >>
+  ELSE << <<"NormalEquations", r.pos /\ Small(r.ab)>> >>
+
 Clauses(r) == CASE r.kind = "table" -> TableClauses(r)
+                [] r.kind = "dominant" -> DominantClauses(r)
                 [] r.kind = "zeropair" -> ZeroPairClauses(r)
                 [] r.kind = "discrete" -> DiscreteClauses(r)
                 [] r.kind = "law" -> LawClauses(r)
